@@ -284,3 +284,71 @@ def abandon_db():
             except Exception:  # noqa
                 pass
     pipeenv.close_db()
+
+
+def reinit(sim, ch):
+    """a forked incarnation starts with an empty simulator (no timers, connections, threads of its parent)"""
+    import dawgie.context as ctx
+
+    _REOPENED.clear()
+    sim.fresh(ch)
+    boot.LOGS.records.clear()
+    ctx.db_lock = False
+    patch_connect(sim)
+    install_conn_pruning(sim)
+
+
+class swapped_store:
+    """the real DBI.open() on another directory while the handles of the running history are kept aside:
+    how a new incarnation looks at a crash image without disturbing the history"""
+
+    FIELDS = ('db_path', 'data_dbs', 'data_stg', 'data_per')
+
+    def __init__(self, d):
+        self.d = d
+
+    def __enter__(self):
+        import dawgie.context as ctx
+        from dawgie.db.shelve.state import DBI
+
+        dbi = DBI()
+        self.saved = (dbi._DBI__indices, dbi._DBI__tables, dbi._DBI__reopened, dbi._DBI__task_engine)
+        self.paths = {f: getattr(ctx, f) for f in self.FIELDS}
+        grp = type(dbi.tables)
+        none = grp(**{n: None for n in grp._fields})
+        dbi._DBI__indices, dbi._DBI__tables, dbi._DBI__reopened, dbi._DBI__task_engine = none, none, False, None
+        ctx.db_path = os.path.join(self.d, 'db')
+        ctx.data_per = os.path.join(self.d, 'db')
+        ctx.data_dbs = os.path.join(self.d, 'dbs')
+        ctx.data_stg = os.path.join(self.d, 'stg')
+        try:
+            dbi.open()
+        except BaseException:
+            self._restore()
+            raise
+        return self
+
+    def _restore(self):
+        import dawgie.context as ctx
+        from dawgie.db.shelve.state import DBI
+
+        dbi = DBI()
+        dbi._DBI__indices, dbi._DBI__tables, dbi._DBI__reopened, dbi._DBI__task_engine = self.saved
+        for f, v in self.paths.items():
+            setattr(ctx, f, v)
+
+    def __exit__(self, *a):
+        from dawgie.db.shelve.state import DBI
+
+        dbi = DBI()
+        try:
+            for t in dbi.tables:
+                if t is not None:
+                    try:
+                        t.dict._modified = False
+                        t.close()
+                    except Exception:  # noqa
+                        pass
+        finally:
+            self._restore()
+        return False
